@@ -104,4 +104,26 @@ PROPS["C19"] = {
     "assumptions": ["inputs up to 4 KiB in the fuzz run"],
 }
 
+PROPS["C05"] = {
+    "suites": ["generate_include", "c05_inline"],
+    "trusted": GEN_TRUST,
+    "level_text": "Kernel-checked theorems about the Gallina transcription of parseFile/mergePrefixesSuffixes for all parser results: a file without prefixes, suffixes and flags hands over exactly its own parsed text (no wrapping), prefixes/suffixes are emitted as a local assemble block around the file's own text, a flags line makes the include fail, the include directory is searched before the exclude directory and .ra is appended exactly when missing. Tied by pins and by end-to-end runs of the including programs through binary and model. Per generated case the binary's output for the including program is compared with its output for the program in which the harness typed the lines in place (bytes; where the text differs, the verified equivalence checker), at top level, inside assemble and inside cmdline blocks; and with the plain reading.",
+    "level_note": "Trusted as C01. The whole-parser statement 'parse(pre ++ include F ++ post) = parse(pre ++ own_buffer F ++ post)' is decided per generated case, not yet by a theorem. Include cycles are outside (C19).",
+    "assumptions": ["include files exist and do not include themselves"],
+}
+PROPS["C06"] = {
+    "suites": ["replace_suffixes", "c06_except"],
+    "trusted": GEN_TRUST,
+    "level_text": "Kernel-checked theorems for all line maps, pair lists and iteration orders: sorting by the unique index gives one result for every iteration order of the line map (so the surviving entries keep F's order), an entry that ends in no key is untouched, an entry that ends in exactly one key gets exactly that ending replaced or deleted, comments/directives/blank lines are skipped, no pair list means no change; chained pairs are refuted by a model witness (known finding). Tied by pins, function-level differential runs of replaceSuffixes (Go result in the model's result set over all orders) and end-to-end runs. Per generated case the binary's output is compared with its output for the program in which the harness did the set difference and the rewrite by hand.",
+    "level_note": "Trusted as C01. 'exactly the entries of F that occur in no Xi' for the whole map/delete/sort pipeline is decided per generated case (by-hand program), the theorem covers the sort and the rewrite.",
+    "assumptions": ["pair lists are non-interfering in the by-hand comparison"],
+}
+PROPS["C07"] = {
+    "suites": ["expand_defs", "generate_defs", "c07_defs"],
+    "trusted": GEN_TRUST,
+    "level_text": "Kernel-checked theorems about the Gallina transcription of expandDefinitions/mergo.Merge for all texts and maps: text that references none of the defined names (in particular references to undefined names) is unchanged, a name keeps its first definition. Tied by pins and by differential runs in which Go's result must lie in the model's result set over all 576 orders of the two map loops. Per generated program the binary's output is compared with its output for every permutation/placement of the definition lines and for the program in which the harness substituted the values itself (bytes). A genuine defect found by this check (references in prefix/suffix lines were not expanded) is repaired in /repo (fix: 8bfbde6).",
+    "level_note": "Trusted as C01. Order independence of the expansion for acyclic, brace-safe definitions is decided per generated case by exhaustive enumeration of iteration orders in the model (<= 4 names) and on the binary by permuted programs; not yet a theorem for all definition graphs.",
+    "assumptions": ["acyclic definitions, no computed names (the property's own quantifier)"],
+}
+
 NOT_APPLICABLE = {}
